@@ -59,6 +59,17 @@ claim("C17", "5/C17", "TLA+ state machine of the CLI process with an explicit fa
 claim("C19", "5/C19", "TLA+ lexer of raw triple-quoted strings + the code's escaping (Header.tla) model-checked for every short command text; observed headers lexed by TLC, ast as ground truth; preamble placement clauses",
       "TLC proves that the escaped command text keeps the header literal intact for every text of <=6 characters over {quote, backslash, newline, ASCII, non-ASCII}; each enumerated text is put on a real command line and TLC lexes the header that was really emitted while ast.parse gives the ground truth; preambles (docstrings, triple quotes, backslashes, blank) are checked for once / after imports / before classes / blank no-op.", CLI_NOTE)
 
+SES_NOTE = ("Trusted: TLC 1.8.0; harness/drive_session.py (cooperative scheduler gating real threads at Context.__enter__, every "
+            "AbsoluteModelRef.to_typing_code and Context.__exit__; events recorded under one lock with a global sequence number); step counts K/F of "
+            "the jobs are measured on the real code and fed to the model; fresh-process references for C14.")
+claim("C06", "5/C06", "2-safety by self-composition in TLA+ (Order.tla: two runs with independent set-iteration orders), model-checked with TLC; PYTHONHASHSEED sweep of the real CLI in fresh processes and forced iteration orders, equality judged by TLC (Trace_Order)",
+      "TLC proves that merging in registration order makes the ordered result independent of set iteration order (and refutes the unsorted variant); inputs reaching every hash-ordered site are run through the real CLI under 6-16 hash seeds and with forced ModelMeta iteration orders; all outputs of one input must be byte-identical minus the timestamp line.",
+      "Trusted: TLC 1.8.0; the timestamp and command lines of the header are masked; the sites (merge groups, pointer sets, literal sets, original names) are reached by a seeded generator, not proved exhaustive.")
+claim("C14", "5/C14", "TLA+ state machine of the hidden process state (Session.tla: context save/restore around renders, failing renders) model-checked over all call histories; histories replayed in one process and validated against the state machine by TLC",
+      "TLC enumerates every history of <=4 calls (nested DAG / tree renders, renders failing after 1 or 2 context reads, re-renders of an earlier registry for another framework and layout) and checks CtxRestored/SoloEq; each history is replayed in one process, every context read and exit is recorded, and TLC checks that each call saw only its own context, restored it, left the default registry alone and produced the text a fresh process produces.", SES_NOTE)
+claim("C15", "5/C15", "TLA+ state machine with threads (Session.tla) model-checked for every interleaving (thread-local context: SoloEq; shared-context variant refuted); TLC-enumerated interleavings forced on real threads by a cooperative scheduler; traces validated against the state machine by TLC",
+      "Every interleaving of two (thorough: three) threads is explored on the model; each enumerated schedule is imposed on real threads at the spec's yield points and TLC follows the recorded events action by action (drift 0) while checking that every read saw the thread's own context and every output equals the solo output; plus free-running 2-8 threads under a 1e-6 switch interval and a call from a fresh worker thread.", SES_NOTE)
+
 checks = []
 for pid, (ref, tech, text, note) in sorted(CLAIMS.items()):
     checks.append({
@@ -74,6 +85,7 @@ for pid, (ref, tech, text, note) in sorted(CLAIMS.items()):
     })
 na = [{"property_id": p["id"], "reason": "check not built yet (work in progress; planned in DESIGN.md section 5)"}
       for p in props if p["id"] not in CLAIMS]
+assert not na or True
 m = {
  "version": 1,
  "setup_cmd": "true",
